@@ -69,8 +69,14 @@ func buildProperty(ww *conversionVisitor, node *sourcewalk.PropertyNode) (*descr
 
 		itemDesc.Number = gl.Ptr(int32(2))
 		itemDesc.Name = gl.Ptr("value")
+
+		// the rules of the values belong in (buf.validate.field).map.values of
+		// the map field: options on the synthetic entry's value field are not
+		// evaluated by protovalidate and cannot be written in proto text
+		var valueRules *validate.FieldConstraints
 		if itemDesc.Options != nil && proto.HasExtension(itemDesc.Options, validate.E_Field) {
-			ww.file.ensureImport(bufValidateImport)
+			valueRules = proto.GetExtension(itemDesc.Options, validate.E_Field).(*validate.FieldConstraints)
+			proto.ClearExtension(itemDesc.Options, validate.E_Field)
 		}
 
 		entryName := mapName(protoFieldName)
@@ -95,13 +101,17 @@ func buildProperty(ww *conversionVisitor, node *sourcewalk.PropertyNode) (*descr
 			ww.setJ5Ext(node.Source, fieldDesc.Options, "map", st.Map.Ext)
 		}
 
-		if st.Map.Rules != nil && (st.Map.Rules.MinPairs != nil || st.Map.Rules.MaxPairs != nil) {
+		if valueRules != nil || (st.Map.Rules != nil && (st.Map.Rules.MinPairs != nil || st.Map.Rules.MaxPairs != nil)) {
+			mapRules := &validate.MapRules{
+				Values: valueRules,
+			}
+			if st.Map.Rules != nil {
+				mapRules.MinPairs = st.Map.Rules.MinPairs
+				mapRules.MaxPairs = st.Map.Rules.MaxPairs
+			}
 			proto.SetExtension(fieldDesc.Options, validate.E_Field, &validate.FieldConstraints{
 				Type: &validate.FieldConstraints_Map{
-					Map: &validate.MapRules{
-						MinPairs: st.Map.Rules.MinPairs,
-						MaxPairs: st.Map.Rules.MaxPairs,
-					},
+					Map: mapRules,
 				},
 			})
 			ww.file.ensureImport(bufValidateImport)
